@@ -1178,6 +1178,10 @@ pub fn run_replay(words: &[&str]) -> String {
         _ => return "ERR bad scheduler".to_string(),
     };
     let n = data.len();
+    if std::thread::panicking() {
+        // see run_reseed: nothing run later in this process can be compared with the run just made
+        return "SKIP panicking".to_string();
+    }
     let mut out = format!("N={} F={}", n, fail.clone().unwrap_or("-".into()));
     for (i, (log_a, sch)) in data.iter().enumerate() {
         let text = shuttle_engine::scheduler::serialization::serialize_schedule(sch);
@@ -1239,6 +1243,9 @@ pub fn run_twice(words: &[&str]) -> String {
     let iters: usize = iters.parse().unwrap();
     let prog = parse_prog(objs, bodies);
     let Some((a, fa)) = run_kind(kind, seed, param, iters, config.clone(), prog.clone()) else { return "ERR bad scheduler".to_string() };
+    if std::thread::panicking() {
+        return "SKIP panicking".to_string();
+    }
     let Some((b, fb)) = run_kind(kind, seed, param, iters, config, prog) else { return "ERR bad scheduler".to_string() };
     if a.len() != b.len() || fa != fb {
         return format!("DIFF iterations {} vs {} fail {:?} vs {:?}", a.len(), b.len(), fa, fb);
@@ -1303,6 +1310,11 @@ pub fn run_reseed(words: &[&str]) -> String {
     let Some((a, fa)) = run_kind("random", seed.parse().unwrap(), 0, iters.parse().unwrap(), config.clone(), prog.clone()) else {
         return "ERR".to_string();
     };
+    if std::thread::panicking() {
+        // a task of the first run was abandoned in the middle of unwinding (observation O6): this thread now reports
+        // panicking() for ever, which changes how later runs behave; nothing can be compared in this process
+        return "SKIP panicking".to_string();
+    }
     for (i, (la, sa)) in a.iter().enumerate() {
         let Some((b, fb)) = run_kind("random", sa.seed, 0, 1, config.clone(), prog.clone()) else { return "ERR".to_string() };
         let expect_fail = if i + 1 == a.len() { fa.clone() } else { None };
